@@ -27,8 +27,8 @@ func (c *runCtx) c13Case(kind string, x []byte, limit uint32, lineEnd2 int) {
 	c.stats.note(kind, append([]byte(strconv.Itoa(int(limit))+":"), hdr...), len(hdr), head != "text/plain")
 	c.stats.Results[head]++
 	c.emit("c13", hx(hdr), strconv.Itoa(int(limit)), sv(magic.Csv)+sv(magic.Tsv)+sv(magic.NdJSON), head, kind, strconv.Itoa(lineEnd2))
-	if pan == nil && m != nil && c.caseNo%8 == 5 {
-		c.agree(kind, x, limit, c.caseNo%64 == 5)
+	if pan == nil && m != nil && (c.caseNo%8 == 5 || (len(x) <= 48 && limit == 0)) {
+		c.agree(kind, x, limit, c.caseNo%64 == 5 || len(x) <= 48) // small files through DetectFile too: a file shorter than the limit is examined whole
 	}
 	if c.stats.Evaluations%499 == 1 {
 		c.stats.sample(fmt.Sprintf("c13 kind=%s limit=%d header=%q -> %s", kind, limit, string(hdr), head))
